@@ -31,6 +31,17 @@ type Obs struct {
 	NT      bool
 	classes []string
 	counts  map[string]int64
+	beat    func()
+}
+
+// Beat tells the per-case watchdog that the case is making progress: a case that is an
+// enumeration of many independent runs (every fault offset of an input) calls it after each run,
+// so that the watchdog measures one run - which takes milliseconds - and not the whole
+// enumeration, whose wall time depends on how busy the machine is.
+func (o *Obs) Beat() {
+	if o != nil && o.beat != nil {
+		o.beat()
+	}
 }
 
 // Class adds class labels.
@@ -238,6 +249,11 @@ func (r *runner[C]) evalNamed(c C, distinctFailFiles bool, name string) error {
 		fmt.Printf("VERIF-INFLIGHT property=%s stage=%s replay=%s\n", r.p.ID, r.stage, path)
 	}
 	var o Obs
+	o.beat = func() {
+		r.mu.Lock()
+		r.inflightT = time.Now()
+		r.mu.Unlock()
+	}
 	err := r.safeCheck(c, &o)
 	r.mu.Lock()
 	r.inflight = nil
